@@ -8,6 +8,9 @@ import SF.Props.C02
 #print axioms SF.C02.wmin_spec
 #print axioms SF.C02.wmax_spec
 #print axioms SF.C02.hln_eq
+#print axioms SF.C02.roc_eq
+#print axioms SF.C02.roc_spec_step
+#print axioms SF.C02.entropy_eq
 #print axioms SF.C02.welford_state
 #print axioms SF.C02.welford_last_eq
 #print axioms SF.C02.vst_eq
